@@ -202,7 +202,7 @@ def proof_stage(ctx: Ctx, module: str, extra_scan: list[str] = (), regenerate=No
             ctx.broken.append({"kind": "proof", "name": module, "detail": "leanchecker rejected the module"})
 
 
-DRIVER_MODULES = {"sbmlid": "CobraModel.Driver.SbmlId", "dl": "CobraModel.Driver.DL", "gpr": "CobraModel.Driver.GPR", "core": "CobraModel.Driver.Core", "lp": "CobraModel.Driver.LP", "summary": "CobraModel.Driver.Summary", "dictio": "CobraModel.Driver.DictIO"}
+DRIVER_MODULES = {"schedule": "CobraModel.Driver.Schedule", "sbmlid": "CobraModel.Driver.SbmlId", "dl": "CobraModel.Driver.DL", "gpr": "CobraModel.Driver.GPR", "core": "CobraModel.Driver.Core", "lp": "CobraModel.Driver.LP", "summary": "CobraModel.Driver.Summary", "dictio": "CobraModel.Driver.DictIO"}
 _driver_built: set = set()
 
 
@@ -407,7 +407,7 @@ class IsolatedPool:
 
     def _spawn(self, i):
         parent, child = self.mp.Pipe()
-        p = self.mp.Process(target=_isolated_worker, args=(child, self.module_name, self.func_name), daemon=True)
+        p = self.mp.Process(target=_isolated_worker, args=(child, self.module_name, self.func_name), daemon=False)
         p.start()
         child.close()
         self.slots[i] = {"proc": p, "conn": parent, "case": None, "t0": 0.0}
